@@ -22,7 +22,7 @@ using tbox::event::Loop;
 using tbox::event::SignalEvent;
 
 namespace {
-enum { CFG, NEW, ENABLE, DISABLE, DESTROY, RAISE, BATCH, BURST, REINIT, NOPS };
+enum { CFG, NEW, ENABLE, DISABLE, DESTROY, RAISE, BATCH, BURST, REINIT, ADDSIG, NOPS };
 const int kNSig = 6, kMaxLoops = 3, kMaxEvents = 10;
 int sig_of(int i) { static const int base[2] = {SIGUSR1, SIGUSR2}; return i < 2 ? base[i] : SIGRTMIN + 1 + (i - 2); }
 
@@ -65,7 +65,7 @@ bool same_action(const struct sigaction &a, const struct sigaction &b, std::stri
 
 std::string run(const Scenario &s, CaseInfo &info) {
   int nloops = 1; int orig_kind[kNSig] = {0};
-  for (auto &op : s.ops) if (op.code == CFG) { nloops = (int)op.in(0, 1, kMaxLoops); for (int i = 0; i < kNSig; ++i) orig_kind[i] = (int)op.in(1 + i, 0, 4); }
+  for (auto &op : s.ops) if (op.code == CFG) { nloops = (int)op.in(0, 1, kMaxLoops); for (int i = 0; i < kNSig; ++i) orig_kind[i] = (int)op.in(1 + i, 0, 5); }
 
   // ---- install the original dispositions and remember exactly what the kernel reports for them
   struct sigaction pre[kNSig], orig[kNSig];
@@ -77,6 +77,7 @@ std::string run(const Scenario &s, CaseInfo &info) {
       case 1: sa.sa_handler = SIG_IGN; break;
       case 2: sa.sa_handler = sentinel_plain; break;
       case 3: sa.sa_sigaction = sentinel_info; sa.sa_flags = SA_SIGINFO; break;
+      case 5: sa.sa_handler = sentinel_plain; sa.sa_flags = SA_RESETHAND; break;   // the 'second Ctrl+C kills' idiom: only ever raised while somebody subscribes
       default: sa.sa_handler = sentinel_plain; sa.sa_flags = SA_RESTART; sigaddset(&sa.sa_mask, SIGUSR1); sigaddset(&sa.sa_mask, SIGPIPE); break;
     }
     sigaction(sig_of(i), &sa, &pre[i]);
@@ -98,7 +99,7 @@ std::string run(const Scenario &s, CaseInfo &info) {
   std::string err; char buf[300];
   int sentinel_expect[kNSig] = {0};
   bool nt_two_loops_one_sig = false, nt_resubscribe_after_zero = false; bool went_zero[kNSig] = {false};
-  int raises = 0, skipped_raises = 0, oneshot_fired = 0, nt_batches = 0, nt_bursts = 0, nt_rearm = 0, nt_self_disable = 0, nt_sibling = 0, nt_sibling_in_dispatch = 0, nt_failed_enable = 0, nt_reinit = 0;
+  int raises = 0, skipped_raises = 0, oneshot_fired = 0, nt_batches = 0, nt_bursts = 0, nt_rearm = 0, nt_self_disable = 0, nt_sibling = 0, nt_sibling_in_dispatch = 0, nt_failed_enable = 0, nt_reinit = 0, nt_addsig_enabled = 0;
 
   auto subs_of = [&](int si) { int n = 0; for (int e = 0; e < nev; ++e) if (evs[e].alive && evs[e].enabled && (evs[e].mask >> si & 1)) n++; return n; };
   auto check_disposition = [&](const char *after) {
@@ -187,6 +188,21 @@ std::string run(const Scenario &s, CaseInfo &info) {
         for (int i = 0; i < kNSig; ++i) if (((old | nm) >> i & 1) && subs_of(i) == 0) went_zero[i] = true;
         check_disposition("re-initialisation");
         break; }
+      case ADDSIG: {   // a further signal for an existing event through the int overload of initialize() (which adds to the set), then enable()
+        if (nev == 0) break;
+        int e = (int)op.in(0, 0, nev - 1); Ev &E = evs[e]; if (!E.alive || E.bad) break;
+        int si = (int)op.in(1, 0, kNSig - 1); bool ok1 = true, ok2 = true, en_after = false;
+        if (E.enabled && !(E.mask >> si & 1)) nt_addsig_enabled++;
+        if (subs_of(si) == 0 && went_zero[si]) nt_resubscribe_after_zero = true;
+        lt[E.loop].call([&] {
+          ok1 = E.ev->initialize(sig_of(si), E.oneshot ? tbox::event::Event::Mode::kOneshot : tbox::event::Event::Mode::kPersist);
+          ok2 = E.ev->enable(); en_after = E.ev->isEnabled();
+        });
+        E.mask |= 1u << si; E.enabled = true;
+        if (!ok1 || !ok2) { snprintf(buf, sizeof buf, "op %zu: initialize(signal)/enable() of event %d returned false", k, e); err = buf; break; }
+        if (!en_after) { snprintf(buf, sizeof buf, "op %zu: isEnabled() of event %d is false after enable()", k, e); err = buf; break; }
+        check_disposition("adding a signal");
+        break; }
       case BATCH: {
         // several subscription changes on events of ONE loop inside ONE loop task (e.g. "disable the loop's last
         // subscriber, then enable another event" before the loop has run its deferred tasks)
@@ -236,7 +252,7 @@ std::string run(const Scenario &s, CaseInfo &info) {
         }
         int last_si = -1;
         for (int si : sigs) {
-          if (subs_at_start[si] == 0 && orig_kind[si] == 0) { skipped_raises++; continue; }     // default action would kill the process
+          if (subs_at_start[si] == 0 && (orig_kind[si] == 0 || orig_kind[si] == 5)) { skipped_raises++; continue; }     // default action would kill the process (kind 5: the kernel would reset the handler)
           // expectations: deliveries are processed per loop in the order they were raised
           bool loops_seen[kMaxLoops] = {false}; int nl = 0;
           std::vector<int> hit;   // events that take part in this delivery
@@ -298,6 +314,8 @@ std::string run(const Scenario &s, CaseInfo &info) {
   info.cls_if(nt_rearm > 0, "oneshot_rearmed_in_its_own_callback");
   info.cls_if(nt_self_disable > 0, "event_disabled_itself_in_its_callback");
   info.cls_if(nt_failed_enable > 0, "enable_of_an_uncatchable_signal_refused");
+  info.cls_if(nt_addsig_enabled > 0, "signal_added_to_an_enabled_event_then_enable_again");
+  { bool rh = false; for (int i = 0; i < kNSig; ++i) if (orig_kind[i] == 5) rh = true; info.cls_if(rh && raises > 0, "original_handler_with_SA_RESETHAND"); }
   info.cls_if(nt_reinit > 0, "event_object_initialised_again_with_another_signal_set");
   info.cls_if(nt_sibling > 0, "callback_disabled_a_sibling_event");
   info.cls_if(nt_sibling_in_dispatch > 0, "sibling_disabled_during_the_dispatch_it_takes_part_in");
@@ -307,8 +325,8 @@ std::string run(const Scenario &s, CaseInfo &info) {
 
 SubDef def = [] {
   SubDef d; d.name = "signals";
-  d.op_names = {"cfg", "new", "enable", "disable", "destroy", "raise", "batch", "burst", "reinit"};
-  d.op_arity = {7, 6, 1, 1, 1, 1, 9, 8, 3};
+  d.op_names = {"cfg", "new", "enable", "disable", "destroy", "raise", "batch", "burst", "reinit", "addsig"};
+  d.op_arity = {7, 6, 1, 1, 1, 1, 9, 8, 3, 2};
   d.nt_rule = "history with a delivery that reaches subscribers in >= 2 loops and >= 1 unsubscribe-to-zero of a signal followed by a re-subscription of it";
   d.run = run;
 #ifndef VERIF_ENGINE_FUZZ
@@ -323,9 +341,10 @@ SubDef def = [] {
       {6, mkop(RAISE, {rc::gen::weightedOneOf<int64_t>({{3, range(0, 1)}, {1, range(0, kNSig - 1)}})})},
       {3, mkop(BATCH, {ev, ev, range(0, 1), ev, range(0, 1), ev, range(0, 1), ev, range(0, 1)})},
       {2, mkop(REINIT, {ev, mask, range(0, 3)})},
+      {2, mkop(ADDSIG, {ev, rc::gen::weightedOneOf<int64_t>({{3, range(0, 1)}, {1, range(0, kNSig - 1)}})})},
       {2, mkop(BURST, {range(2, 7), range(0, 2), range(0, 2), range(0, 2), range(0, 2), range(0, 2), range(0, kNSig - 1), range(0, kNSig - 1)})},
     });
-    auto cfg = mkop(CFG, {rc::gen::weightedOneOf<int64_t>({{1, rc::gen::just<int64_t>(1)}, {3, range(2, kMaxLoops)}}), range(0, 4), range(0, 4), range(0, 4), range(0, 4), range(0, 4), range(0, 4)});
+    auto cfg = mkop(CFG, {rc::gen::weightedOneOf<int64_t>({{1, rc::gen::just<int64_t>(1)}, {3, range(2, kMaxLoops)}}), range(0, 5), range(0, 5), range(0, 5), range(0, 5), range(0, 5), range(0, 5)});
     auto mk = mkop(NEW, {range(0, kMaxLoops - 1), mask, range(0, 3), range(0, 9), range(0, kMaxEvents - 1), rc::gen::weightedOneOf<int64_t>({{6, range(0, 6)}, {1, rc::gen::just<int64_t>(7)}})});
     auto en = mkop(ENABLE, {ev});
     return scenarioOf(fixedOps({cfg, mk, mk, mk, mk, en, en, en}), opsOf(opg));
